@@ -8,6 +8,8 @@ import (
 	"go/types"
 	"math/big"
 	"strings"
+
+	"golang.org/x/tools/go/ssa"
 )
 
 // specCtx is the evaluation context of a spec expression.
@@ -173,6 +175,13 @@ func (c *specCtx) eval(x SExpr) (Val, types.Type) {
 		return oc.eval(n.X)
 	case *SUn:
 		v, t := c.eval(n.X)
+		if n.Op == "*" {
+			p, ok := t.Underlying().(*types.Pointer)
+			if !ok {
+				c.fail("dereference of non-pointer %s", t)
+			}
+			return c.loadPx(c.e.ptrOf(v, p.Elem()), p.Elem()), p.Elem()
+		}
 		if n.Op == "!" {
 			return scalar(tb.Not(v.T[0])), boolType
 		}
@@ -308,6 +317,17 @@ func (c *specCtx) ident(name string) (Val, types.Type) {
 	if strings.HasPrefix(name, "$") && c.frame != nil {
 		// $i : completed iterations of the innermost range loop = rangeindex + 1
 		if name == "$i" {
+			if c.loopCtx != nil && c.loopCtx.Info != nil {
+				for _, in := range c.loopCtx.Info.Header.Instrs {
+					if ld, ok := in.(*ssa.UnOp); ok {
+						if al, ok := ld.X.(*ssa.Alloc); ok && (al.Comment == "rangeindex" || al.Comment == "rangeint.iter") {
+							if id, ok := c.frame.Cells[al]; ok {
+								return scalar(tb.Add(c.st.Cells[id].V.T[0], tb.Int(1))), untypedInt
+							}
+						}
+					}
+				}
+			}
 			if b := c.lookupLocal("rangeindex"); b != nil {
 				return scalar(tb.Add(b.V.T[0], tb.Int(1))), untypedInt
 			}
@@ -432,9 +452,10 @@ func (c *specCtx) isNil(v Val, t types.Type) *Term {
 	tb := c.e.tb
 	switch t.Underlying().(type) {
 	case *types.Slice:
-		return tb.Eq(v.slArr(), tb.Int(0))
+		// a nil slice has no backing array and (by well-formedness) length 0
+		return tb.And(tb.Eq(v.slArr(), tb.Int(0)), tb.Eq(v.slLen(), tb.Int(0)))
 	case *types.Interface:
-		return tb.Eq(v.ifTag(), tb.Int(0))
+		return tb.And(tb.Eq(v.ifTag(), tb.Int(0)), tb.Eq(v.ifVal(), tb.Int(0)))
 	}
 	if px, ok := v.ann("").(*PtrX); ok {
 		_ = px
